@@ -5,6 +5,8 @@ package main
 // have no effect on the shared file map, which is what abandoning the process at that storage operation means.
 
 import (
+	"errors"
+	"io"
 	"sync"
 	"sync/atomic"
 
@@ -36,14 +38,27 @@ func (l *fsLog) take() []fsEvent {
 }
 
 type vfs struct {
+	root  *storage.MemoryFilesystem // the shared file system ("/")
+	grave *storage.MemoryFilesystem // copies of deleted files: only dead views read them (their tasks must not panic on a missing file)
 	inner *storage.MemoryFilesystem
 	void  *storage.MemoryFilesystem // where files created after the crash go: a private map nobody else sees
 	log   *fsLog
 	dead  *atomic.Bool
 }
 
-func newVFS(inner *storage.MemoryFilesystem, void *storage.MemoryFilesystem, log *fsLog) *vfs {
-	return &vfs{inner: inner, void: void, log: log, dead: &atomic.Bool{}}
+func newVFS(root, grave, inner, void *storage.MemoryFilesystem, log *fsLog) *vfs {
+	return &vfs{root: root, grave: grave, inner: inner, void: void, log: log, dead: &atomic.Bool{}}
+}
+
+// bury keeps a copy of a file that is about to be deleted.
+func (v *vfs) bury(path string) {
+	data, err := io.ReadAll(&storage.Cursor{File: v.root.Open(path)})
+	if err != nil {
+		return
+	}
+	g := v.grave.New(path)
+	g.Write(data)
+	g.Save()
 }
 
 func uriPath(uri string) string {
@@ -84,10 +99,19 @@ func (f *vfile) Save() error {
 	return err
 }
 
+func (f *vfile) ReadAt(p []byte, off int64) (int, error) {
+	n, err := f.File.ReadAt(p, off)
+	if err != nil && errors.Is(err, storage.ErrNotFound) && f.v.dead.Load() {
+		return f.v.grave.Open(uriPath(f.File.URI())).ReadAt(p, off)
+	}
+	return n, err
+}
+
 func (f *vfile) Delete() error {
 	if f.v.dead.Load() {
 		return nil
 	}
+	f.v.bury(uriPath(f.File.URI()))
 	f.v.log.add("delete", uriPath(f.File.URI()))
 	return f.File.Delete()
 }
@@ -100,6 +124,7 @@ func (f *vfile) CreateDeleteFunc() func() error {
 		if v.dead.Load() {
 			return nil
 		}
+		v.bury(path)
 		v.log.add("delete", path)
 		return inner()
 	}
